@@ -8,7 +8,8 @@ TARGETS = [("fn", "menelaus.detector:StreamingDetector._validate_X"),
            ("fn", "menelaus.data_drift.kdq_tree:KdqTreeStreaming.update"),
            ("fn", "menelaus.concept_drift.lfr:LinearFourRates.update@tnr"),
            ("fn", "menelaus.data_drift.kdq_tree:KdqTreeBatch.update"), ("fn", "menelaus.data_drift.kdq_tree:KdqTreeBatch.set_reference"), ("fn", "menelaus.data_drift.nndvi:NNDVI.update"), ("fn", "menelaus.data_drift.nndvi:NNDVI.set_reference"),
-           ("fn", "menelaus.data_drift.histogram_density_method:HistogramDensityMethod.set_reference")]
+           ("fn", "menelaus.data_drift.histogram_density_method:HistogramDensityMethod.set_reference"),
+           ("fn", "menelaus.data_drift.cdbd:CDBD.update"), ("fn", "menelaus.data_drift.cdbd:CDBD.set_reference")]
 TARGETS_THOROUGH = [("fn", "menelaus.data_drift.histogram_density_method:HistogramDensityMethod.update")]
 LEVEL = "proof"
 ASSUMPTIONS = A_COMMON + [
